@@ -525,6 +525,11 @@ func vShExec(o *vOut, toks []string) string {
 		if toks[3] == "past" {
 			t = time.Unix(1, 0)
 		}
+		if toks[3] == "future" {
+			// a deadline that does not expire during the session: a read parked under it must still be
+			// released by the handle's own Close
+			t = time.Now().Add(time.Hour)
+		}
 		err := s.handles[h].SetReadDeadline(t)
 		if err == nil {
 			s.rdPast[h] = toks[3] == "past"
@@ -549,6 +554,8 @@ func vShGen(o *vOut, r *vRand, thorough bool, args []string, emit func(op string
 			{"open", "feed", "feed", "read 0", "open", "read 1", "read 1", "close 1", "read 0", "close 0"},
 			{"open", "open", "open", "open", "open", "close 3", "close 3", "close 0", "close 4", "write 2", "close 1", "close 2", "close 2"},
 			{"open", "read 0", "feed", "read 0", "read 0", "close 0"},
+			{"open", "open", "setrd 0 future", "read 0", "close 0", "write 1", "read 1", "close 1"},
+			{"open", "open", "setrd 1 future", "read 1", "read 0", "close 1", "feed", "close 0"},
 		} {
 			emit("shared new " + k)
 			for _, op := range sess {
@@ -658,6 +665,8 @@ func vShGen(o *vOut, r *vRand, thorough bool, args []string, emit func(op string
 				v := "zero"
 				if k != "tcp" && r.chance(1, 2) {
 					v = "past"
+				} else if r.chance(1, 2) {
+					v = "future"
 				}
 				emit(fmt.Sprintf("shared setrd %d %s", h, v))
 				if open[h] {
